@@ -8,7 +8,7 @@ import numpy as np
 from hypothesis import strategies as st
 
 from .. import gen, model
-from ..core import Ctx, Violation, call, check, digest, must_raise, per_shard, run_given
+from ..core import Ctx, Violation, call, check, digest, must_raise, per_shard, run_given, given_part, machine_part, run_parts
 
 PID = "C13"
 LEVEL = "fault_enumeration"
@@ -463,7 +463,8 @@ def replay(ctx: Ctx, case):
 
 def run(ctx: Ctx):
     q = ctx.tier == "quick"
-    if not run_given(ctx, "wide", wide_cases(), check_wide, 2 if q else 8, batch=2):
-        return
-    run_given(ctx, "faults", cases(), check_faults, per_shard(ctx, 400 if q else 4800), batch=10)
+    parts = []
+    parts.append(given_part(ctx, "wide", wide_cases(), check_wide, 2 if q else 8, batch=2))
+    parts.append(given_part(ctx, "faults", cases(), check_faults, per_shard(ctx, 400 if q else 4800), batch=10))
     ctx.exhaustive_subdomains["complete fault space (kind x chunk x position, iterator failure before every chunk) per generated stream"] = 1
+    run_parts(ctx, parts)
